@@ -11,7 +11,15 @@ GBits(maxbytes, maxrows) ==
   {gg \in {<<"png", c, k, b, r>> : c \in 1..3, k \in {1, 2, 3, 5, 8, 9}, b \in {1, 2, 4, 16}, r \in 1..maxrows} :
       Prod(gg[2], gg[3], gg[4], gg[5]) <= maxbytes}
   \cup {<<"tiff", 1, 2, b, 1>> : b \in {1, 2, 4, 16}}
-GeomsQuick == G8("png", 6, 2) \cup G8("tiff", 6, 2) \cup GBits(4, 2)
-GeomsFull  == G8("png", 8, 3) \cup G8("tiff", 8, 3) \cup GBits(6, 2)
+\* bits per pixel across the byte classes {1..7, 8, 9..15, 16, 17..23, 24, 32}: (colors, bits) pairs whose product is
+\* above 8 and NOT a multiple of 8 make floor and ceiling of bytes-per-pixel differ (9 x 1, 12 x 1, 15 x 1 -> 2 bytes;
+\* 17 x 1, 20 x 1 -> 3; 3 x 4 = 12 and 5 x 2 = 10 -> 2), next to the multiples (4 x 8 = 32, 2 x 16 = 32, 16 x 1, 24 x 1)
+BppPairs == {<<5, 1>>, <<7, 1>>, <<9, 1>>, <<12, 1>>, <<15, 1>>, <<16, 1>>, <<17, 1>>, <<20, 1>>, <<24, 1>>,
+             <<4, 8>>, <<3, 4>>, <<5, 2>>, <<2, 16>>}
+GBpp(maxbytes, maxrows) ==
+  {gg \in {<<"png", cb[1], k, cb[2], r>> : cb \in BppPairs, k \in 1..2, r \in 1..maxrows} :
+      Prod(gg[2], gg[3], gg[4], gg[5]) <= maxbytes}
+GeomsQuick == G8("png", 6, 2) \cup G8("tiff", 6, 2) \cup GBits(4, 2) \cup GBpp(4, 2)
+GeomsFull  == G8("png", 8, 3) \cup G8("tiff", 8, 3) \cup GBits(6, 2) \cup GBpp(6, 2)
 GeomsTiny  == G8("png", 4, 2) \cup G8("tiff", 4, 2) \cup GBits(2, 2)
 ====
